@@ -119,16 +119,17 @@ End WithValid.
 
 (* a scripted case: table of valid marshalled byte strings, initial in-memory
    configuration, the items, and the projected strace trace *)
-Definition scase := (list bytes * bytes * dir * list item * list tstep)%type.
+(* the last component: was the child traced (false: strace/ptrace not available, the trace is not compared) *)
+Definition scase := (list bytes * bytes * dir * list item * list tstep * bool)%type.
 
 Definition chk (c : scase) : bool :=
-  let '(valid, mem0, cwd0, its, tr) := c in
+  let '(valid, mem0, cwd0, its, tr, traced) := c in
   let '(w, good) := run_case valid (Some mem0) cwd0 its in
-  good && list_eqb tstep_eqb (trace w) tr.
+  good && (negb traced || list_eqb tstep_eqb (trace w) tr).
 
 (* what the model computes, for diagnostics (lengths instead of contents) *)
 Definition show (c : scase) :=
-  let '(valid, mem0, cwd0, its, tr) := c in
+  let '(valid, mem0, cwd0, its, tr, traced) := c in
   let '(w, good) := run_case valid (Some mem0) cwd0 its in
   (good, list_eqb tstep_eqb (trace w) tr, trace w,
    map (fun h => match h with HDone d nb ok => (d, option_map blen nb, ok, false) | HDir d c l => (d, None, c, l) end) (hist w),
